@@ -126,7 +126,9 @@ func (st TrackerStatus) String() string {
 
 	// other filters
 	for k, v := range trackerStatusString {
-		if st&k > 0 {
+		// only names whose bits are all set: "queued" must not
+		// be listed for a filter which only includes "pin_queued".
+		if k != TrackerStatusUndefined && st&k == k {
 			values = append(values, v)
 		}
 	}
